@@ -15,7 +15,8 @@
 (* abstract statements, an invocation (build|test, argument list, working   *)
 (* directory), pre-existing artifacts, and the number of times the same     *)
 (* invocation is repeated (a repetition is a fresh process on the disk the  *)
-(* previous one left).  The machine is deterministic for a given project.   *)
+(* previous one left).  The machine is deterministic for a given project,   *)
+(* except for the order in which link_ops visits the links of a file.       *)
 (*                                                                          *)
 (* Solo(f) -- what building f alone in a fresh process must yield -- is a   *)
 (* big-step denotation without caches, frames or locks; the invariants bind *)
@@ -86,7 +87,10 @@ Spell(lay, f, s) ==     \* the relative path as written in the source of file f
        [] s.sp = 2 -> Detour(lay.dir[f]) \o r
        [] OTHER    -> << ".", "." >> \o r
 IsAbs(p) == Len(p) > 0 /\ p[1] = "/"
-Parent(p) == SubSeq(p, 1, Len(p) - 1)
+(* Path::parent works on components: `.` components that end up last are dropped *)
+RECURSIVE TrimDots(_)
+TrimDots(p) == IF Len(p) > 1 /\ p[Len(p)] = "." THEN TrimDots(SubSeq(p, 1, Len(p) - 1)) ELSE p
+Parent(p) == TrimDots(SubSeq(p, 1, Len(p) - 1))
 Up(p) == IF p = << >> \/ p = << "/" >> THEN p ELSE Parent(p)
 (* path.rs:22-34 normalize: lexical, `..` pops, `.` dropped *)
 RECURSIVE NormFrom(_, _)
@@ -138,14 +142,14 @@ StaticFail(body, f) ==
 (* file being imported is the ImportCycle diagnostic; every out writes one   *)
 (* artifact <stem>.<ext> or fails without touching the disk; a second out of *)
 (* the same evaluation is an error; assertions are recorded once each.       *)
-Acc0 == [err |-> "", done |-> {}, arts |-> << >>, alog |-> << >>]
+Acc0 == [err |-> "", done |-> {}, arts |-> << >>, alog |-> << >>, evs |-> << >>]
 RECURSIVE DStmts(_, _, _, _, _, _)
 DStmts(body, f, i, chain, nout, acc) ==
   IF acc.err # "" \/ i > Len(body[f]) THEN acc
   ELSE LET s == body[f][i]
            next(a, no) == DStmts(body, f, i + 1, chain, no, a)
        IN CASE s.k = "lit"    -> next(acc, nout)
-            [] s.k = "inc"    -> next(acc, nout)
+            [] s.k = "inc"    -> IF s.pos = "failMsg" THEN [acc EXCEPT !.err = "UserFail"] ELSE next(acc, nout)
             [] s.k = "assert" -> next([acc EXCEPT !.alog = Append(@, [af |-> f, ai |-> i, okay |-> s.r = "ok"])], nout)
             [] s.k = "rterr"  -> [acc EXCEPT !.err = "UserFail"]
             [] s.k = "tyerr"  -> [acc EXCEPT !.err = "TypeErr"]
@@ -160,13 +164,14 @@ DStmts(body, f, i, chain, nout, acc) ==
                                  ELSE next(a, nout)
                  IN IF g \in acc.done THEN after(acc)
                     ELSE IF \E j \in 1..Len(chain) : chain[j] = g THEN [acc EXCEPT !.err = "ImportCycle"]
-                    ELSE LET a2 == DStmts(body, g, 1, Append(chain, g), 0, acc)
+                    ELSE LET a2 == DStmts(body, g, 1, Append(chain, g), 0, [acc EXCEPT !.evs = Append(@, g)])
                          IN after(IF a2.err # "" THEN a2 ELSE [a2 EXCEPT !.done = @ \cup {g}])
 Solo(body, f) ==
   LET sf == StaticFail(body, f)
-  IN IF sf # {} THEN [okay |-> FALSE, clss |-> sf, arts |-> << >>, alog |-> << >>]
+  IN IF sf # {} THEN [okay |-> FALSE, clss |-> sf, arts |-> << >>, alog |-> << >>, tr |-> << >>]
      ELSE LET a == DStmts(body, f, 1, << >>, 0, Acc0)
-          IN [okay |-> a.err = "", clss |-> IF a.err = "" THEN {} ELSE {a.err}, arts |-> a.arts, alog |-> a.alog]
+          IN [okay |-> a.err = "", clss |-> IF a.err = "" THEN {} ELSE {a.err}, arts |-> a.arts, alog |-> a.alog,
+              tr |-> << f >> \o a.evs]        \* the evaluations that start, in order (each prints its TRACE line)
 
 (* ---- the disk ------------------------------------------------------------ *)
 (* an artifact is [af, ext, c, ci]: named like file af with extension ext;   *)
@@ -191,10 +196,10 @@ VARIABLES proj,        \* [lay, body, cmd, cwd, ord, pre] -- constant along a be
           perr,        \* error class that ended the current file ("" = none)
           opCache, valCache, shapeCache, outLock, asserts,   \* the Environment
           disk, diskPre, verdicts, exit,
-          evalCount, importResult, outSnap, convFailed, epoch, past, fired   \* history
+          evalCount, importResult, outSnap, convFailed, epoch, past, fired, trlog   \* history
 vars == << proj, round, argi, cur, st, fetch, chk, pend, found, frames, perr, opCache, valCache,
            shapeCache, outLock, asserts, disk, diskPre, verdicts, exit, evalCount, importResult,
-           outSnap, convFailed, epoch, past, fired >>
+           outSnap, convFailed, epoch, past, fired, trlog >>
 
 Lay  == proj.lay
 Body == proj.body
@@ -219,7 +224,7 @@ Init ==
   /\ \E lay \in Layouts, body \in Bodies, cmd \in Cmds, cwd \in Cwds, ord \in Orders, pre \in Pres :
         proj = [lay |-> lay, body |-> body, cmd |-> cmd, cwd |-> cwd, ord |-> ord, pre |-> pre]
   /\ TypeOKProject(proj)
-  /\ round = 1 /\ past = << >> /\ fired = {}
+  /\ round = 1 /\ past = << >> /\ fired = {} /\ trlog = << >>
   /\ disk = OwnPre(proj.body, proj.pre) /\ diskPre = disk
   /\ InitSession
 
@@ -230,11 +235,16 @@ CurStmt == Body[Top.f][Top.pc]
 ImpStmts(f) == { s \in Stmts(Body, f) : s.k = "imp" }
 (* the path string a hook receives: made absolute against the directory the
    ops were translated for, unless the walker never saw the expression *)
+(* the link work list and the strings in the ops hold paths as the Rewriter left them *)
+LinkForm(p) == IF Dev("RawPathKeys") THEN p ELSE Normalize(p)
 RtPath(base, f, s) ==
-  IF Dev("WalkerSkips") /\ WalkerBlind(s.pos) THEN Spell(Lay, f, s) ELSE base \o Spell(Lay, f, s)
-OpFileOf(key) == IF \E e \in opCache : e.key = key THEN (CHOOSE e \in opCache : e.key = key).f ELSE 0
+  IF Dev("WalkerSkips") /\ WalkerBlind(s.pos) THEN Spell(Lay, f, s) ELSE LinkForm(base \o Spell(Lay, f, s))
+(* the op cache is keyed by PathBuf: `/p/./b` and `/p/b` are one entry *)
+OpFileOf(key) == IF \E e \in opCache : e.key = PKey(key) THEN (CHOOSE e \in opCache : e.key = PKey(key)).f ELSE 0
 KeyForm(p) == IF Dev("RawPathKeys") THEN PKey(p) ELSE Normalize(p)
-LinksOf(key, g) == { KeyForm(RtPath(Parent(key), g, s)) : s \in ImpStmts(g) }
+(* the link work list holds path STRINGS (translate.rs OpsMap.links, mod.rs found) *)
+OpRootOf(key) == (CHOOSE e \in opCache : e.key = PKey(key)).root     \* the directory the cached ops were translated for
+LinksOf(root, g) == { RtPath(root, g, s) : s \in ImpStmts(g) }
 EntryKey(f) == FilePath(Lay, f)        \* cwd.join(argument); the driver passes arguments that need no normalisation
 
 (* static checker: index of the next statement the checker reacts to *)
@@ -244,8 +254,8 @@ SkipTo(f, i) == IF i > Len(Body[f]) THEN i ELSE IF Relevant(Body[f][i]) THEN i E
 CFrame(f, wd, stk, key) == [f |-> f, wd |-> wd, pc |-> SkipTo(f, 1), stk |-> stk, err |-> "", key |-> key]
 CTop == chk[Len(chk)]
 
-VFrame(f, key, istk, kind) ==
-  [f |-> f, key |-> key, base |-> Parent(key), pc |-> 1, istk |-> istk, kind |-> kind, sub |-> ""]
+VFrame(f, key, root, istk, kind) ==
+  [f |-> f, key |-> key, base |-> root, pc |-> 1, istk |-> istk, kind |-> kind, sub |-> ""]
 
 (* the file fails: every VM unwinds, FileBuilder::build returns Err *)
 FailFile(cls) ==
@@ -253,16 +263,16 @@ FailFile(cls) ==
   /\ perr' = cls /\ st' = "fin"
 
 (* get_ops_for_path succeeded for `fetch` (hit, or parsed + checked + translated) *)
-FetchOk(g) ==
+FetchOk(g, root) ==
   CASE fetch.ctx = "entry" ->
-         /\ st' = "link" /\ pend' = LinksOf(fetch.key, g) /\ found' = {}
+         /\ st' = "link" /\ pend' = LinksOf(root, g) /\ found' = {}
          /\ fetch' = NoFetch /\ UNCHANGED << frames, perr, evalCount, epoch >>
     [] fetch.ctx = "link" ->
-         /\ st' = "link" /\ found' = found \cup {fetch.key} /\ pend' = pend \cup LinksOf(fetch.key, g)
+         /\ st' = "link" /\ found' = found \cup {fetch.key} /\ pend' = pend \cup LinksOf(root, g)
          /\ fetch' = NoFetch /\ UNCHANGED << frames, perr, evalCount, epoch >>
     [] OTHER ->   \* import: VM::with_pointer(...).with_import_stack(import_stack.clone()); vm.run
          /\ st' = "run" /\ fetch' = NoFetch
-         /\ frames' = Append(frames, VFrame(g, fetch.key,
+         /\ frames' = Append(frames, VFrame(g, fetch.key, root,
                                IF Dev("PushAfterCompletion") THEN Top.istk ELSE Append(Top.istk, fetch.key),
                                "import"))
          /\ evalCount' = [evalCount EXCEPT ![g] = @ + 1] /\ epoch' = epoch + 1
@@ -290,7 +300,7 @@ BeginFile ==                      \* event file_begin: FileBuilder::build entere
 (* ---- environment.rs get_ops_for_path -------------------------------------- *)
 OpsHit ==                         \* event ops_cache{hit:true}
   /\ st \in {"ops", "link"} /\ fetch.ctx # "" /\ OpFileOf(fetch.key) # 0
-  /\ FetchOk(OpFileOf(fetch.key))
+  /\ FetchOk(OpFileOf(fetch.key), OpRootOf(fetch.key))
   /\ UNCHANGED << proj, round, argi, cur, chk, opCache, valCache, shapeCache, outLock, asserts, disk, diskPre,
                   verdicts, exit, importResult, outSnap, convFailed, past >>
 
@@ -355,9 +365,9 @@ StaticEnd ==                      \* silent: a Checker finished its statement li
                      /\ chk' = [rest EXCEPT ![Len(rest)] = Advance([par EXCEPT !.err = IF @ = "" THEN CTop.err ELSE @])]
              /\ UNCHANGED << st, fetch, pend, found, frames, perr, opCache, evalCount, epoch >>
      ELSE IF CTop.err = ""
-          THEN /\ opCache' = opCache \cup {[key |-> fetch.key, f |-> CTop.f]}
+          THEN /\ opCache' = opCache \cup {[key |-> PKey(fetch.key), f |-> CTop.f, root |-> Parent(fetch.key)]}
                /\ chk' = << >> /\ shapeCache' = shapeCache
-               /\ FetchOk(CTop.f)
+               /\ FetchOk(CTop.f, Parent(fetch.key))
           ELSE /\ FailFile(CTop.err)
                /\ UNCHANGED << opCache, shapeCache, evalCount, epoch >>
   /\ UNCHANGED StaticUnch
@@ -372,7 +382,7 @@ Link(k) ==                        \* silent: next link of the work list; its ops
 
 LinkDone ==                       \* silent: everything linked, the entry VM starts (eval_ops)
   /\ st = "link" /\ fetch.ctx = "" /\ pend \subseteq found
-  /\ st' = "run" /\ frames' = << VFrame(cur, EntryKey(cur), << >>, "entry") >>
+  /\ st' = "run" /\ frames' = << VFrame(cur, EntryKey(cur), OpRootOf(EntryKey(cur)), << >>, "entry") >>
   /\ pend' = {} /\ found' = {}
   /\ UNCHANGED << proj, round, argi, cur, fetch, chk, perr, opCache, valCache, shapeCache, outLock, asserts, disk,
                   diskPre, verdicts, exit, evalCount, importResult, outSnap, convFailed, epoch, past >>
@@ -453,8 +463,8 @@ Include ==                        \* event include{okay}
   /\ LET p == RtPath(Top.base, Top.f, CurStmt)
          g == DataAt(Lay, OSResolve(proj.cwd, p))
      IN /\ importResult' = importResult \cup {[af |-> Top.f, ai |-> Top.pc, tgt |-> CurStmt.tgt, got |-> g, ep |-> 0, how |-> "inc"]}
-        /\ IF g = 0
-           THEN FailFile("NotFound")
+        /\ IF g = 0 \/ CurStmt.pos = "failMsg"        \* unreadable, or read for the message of a fail
+           THEN FailFile(IF g = 0 THEN "NotFound" ELSE "UserFail")
            ELSE /\ frames' = SetTop(Step(Top))
                 /\ UNCHANGED << st, fetch, perr, chk, pend, found >>
   /\ UNCHANGED << valCache, outLock, asserts, disk, evalCount, outSnap, convFailed, epoch >>
@@ -520,7 +530,7 @@ EndFile ==                        \* event file_end{okay}: main.rs prints the ve
                 ELSE (IF okb THEN "ok" ELSE "fail")
      IN verdicts' = Append(verdicts, [f |-> cur, res |-> res, cls |-> perr,
                                       alog |-> IF okb /\ proj.cmd = "test" THEN asserts.summary ELSE << >>,
-                                      d0 |-> diskPre, d1 |-> disk])
+                                      d0 |-> diskPre, d1 |-> disk, tr |-> trlog, imps |-> importResult])
   /\ st' = "pick" /\ cur' = 0
   /\ UNCHANGED << proj, round, argi, fetch, chk, pend, found, frames, perr, opCache, valCache, shapeCache, outLock,
                   asserts, disk, diskPre, exit, evalCount, importResult, outSnap, convFailed, epoch, past >>
@@ -549,7 +559,7 @@ Static == StaticTyErr \/ StaticHit \/ StaticCycle \/ StaticBegin \/ StaticEnd
 StaticResolve == Static
 CoreNext ==
   \/ NextFile \/ BeginFile \/ OpsHit \/ OpsMiss \/ Static
-  \/ (pend \ found # {} /\ Link(CHOOSE x \in pend \ found : TRUE)) \/ LinkDone
+  \/ (\E k \in pend \ found : Link(k)) \/ LinkDone      \* link order: that of a BTreeMap of path strings -- left open here
   \/ StmtStep \/ StmtErr \/ ImportHit \/ ImportCycle \/ ImportBegin \/ Crash \/ ImportEnd \/ Include
   \/ AssertRecord \/ OutLock \/ OutCreate \/ OutWriteOk \/ OutWriteFail
   \/ RunDone \/ EndFile \/ Exit \/ Restart
@@ -574,9 +584,51 @@ FiredNow ==
       THEN {"WalkerSkips"} ELSE {})
  \cup (IF Dev("RawPathKeys") /\ ((AtStatic /\ Body[CTop.f][CTop.pc].k = "imp"
                                    /\ SKeyOf(CTop) # Normalize(SKeyOf(CTop)))
-                                 \/ (fetch.ctx = "link" /\ fetch.key # Normalize(fetch.key)))
+                                 \/ (fetch.ctx = "link" /\ PKey(fetch.key) # Normalize(fetch.key)))
       THEN {"RawPathKeys"} ELSE {})
-Next == CoreNext /\ fired' = fired \cup FiredNow
+Hist ==
+  /\ fired' = fired \cup FiredNow
+  /\ trlog' = CASE (st = "pick" /\ cur # 0) \/ st = "done" -> << >>
+                 [] st = "link" /\ st' = "run" -> << cur >>
+                 [] \E g \in F : evalCount'[g] = evalCount[g] + 1 ->
+                        Append(trlog, CHOOSE g \in F : evalCount'[g] = evalCount[g] + 1)
+                 [] OTHER -> trlog
+(* one named next-state action per action of the machine (TLC reports coverage per name) *)
+N_NextFile == NextFile /\ Hist
+N_BeginFile == BeginFile /\ Hist
+N_OpsHit == OpsHit /\ Hist
+N_OpsMiss == OpsMiss /\ Hist
+N_StaticTyErr == StaticTyErr /\ Hist
+N_StaticHit == StaticHit /\ Hist
+N_StaticCycle == StaticCycle /\ Hist
+N_StaticBegin == StaticBegin /\ Hist
+N_StaticEnd == StaticEnd /\ Hist
+N_LinkDone == LinkDone /\ Hist
+N_StmtStep == StmtStep /\ Hist
+N_StmtErr == StmtErr /\ Hist
+N_ImportHit == ImportHit /\ Hist
+N_ImportCycle == ImportCycle /\ Hist
+N_ImportBegin == ImportBegin /\ Hist
+N_Crash == Crash /\ Hist
+N_ImportEnd == ImportEnd /\ Hist
+N_Include == Include /\ Hist
+N_AssertRecord == AssertRecord /\ Hist
+N_OutLock == OutLock /\ Hist
+N_OutCreate == OutCreate /\ Hist
+N_OutWriteOk == OutWriteOk /\ Hist
+N_OutWriteFail == OutWriteFail /\ Hist
+N_RunDone == RunDone /\ Hist
+N_EndFile == EndFile /\ Hist
+N_Exit == Exit /\ Hist
+N_Restart == Restart /\ Hist
+N_Link == (\E k \in pend \ found : Link(k)) /\ Hist
+Next ==
+  \/ N_NextFile \/ N_BeginFile \/ N_OpsHit \/ N_OpsMiss \/ N_StaticTyErr \/ N_StaticHit
+  \/ N_StaticCycle \/ N_StaticBegin \/ N_StaticEnd \/ N_LinkDone \/ N_StmtStep \/ N_StmtErr
+  \/ N_ImportHit \/ N_ImportCycle \/ N_ImportBegin \/ N_Crash \/ N_ImportEnd \/ N_Include
+  \/ N_AssertRecord \/ N_OutLock \/ N_OutCreate \/ N_OutWriteOk \/ N_OutWriteFail \/ N_RunDone
+  \/ N_EndFile \/ N_Exit \/ N_Restart
+  \/ N_Link
 
 Spec == Init /\ [][Next]_vars
 
@@ -593,6 +645,13 @@ ResolveRelToFile == \A r \in importResult : r.got = r.tgt
 
 (* C09: one evaluation per build, however often and however spelled *)
 EvalOnce == \A f \in F : evalCount[f] <= 1
+
+(* C09: the first build of a process evaluates exactly the files the denotation
+   evaluates, in that order, each once (later builds of a batch legitimately reuse
+   imported values: what they evaluate is a sub-sequence) *)
+EvalOrder ==
+  (JustEnded /\ Len(verdicts) = 1) =>
+      LET s == Solo(Body, LastV.f) IN Cardinality(s.clss) <= 1 => LastV.tr = s.tr
 
 (* C09: every import of a file within a build yields one and the same value *)
 SameValue == \A r1, r2 \in importResult :
@@ -660,7 +719,7 @@ ExpectFiles(ord, i, d) ==
   ELSE LET f == ord[i]
            s == Solo(Body, f)
            d2 == ApplyArts(d, s.arts)
-       IN << [f |-> f, okay |-> s.okay, clss |-> s.clss, alog |-> s.alog, pass |-> SoloPass(f), disk |-> d2] >>
+       IN << [f |-> f, okay |-> s.okay, clss |-> s.clss, alog |-> s.alog, pass |-> SoloPass(f), disk |-> d2, tr |-> s.tr] >>
           \o ExpectFiles(ord, i + 1, d2)
 RECURSIVE ExpectRounds(_, _)
 ExpectRounds(r, d) ==
@@ -671,7 +730,7 @@ ExpectRounds(r, d) ==
               exit |-> IF \E i \in 1..Len(fs) : ~SoloOkOrPass(fs[i].f) THEN 1 ELSE 0] >> \o ExpectRounds(r + 1, d2)
 GotRound(vs, ex, d) ==
   [files |-> [i \in 1..Len(vs) |-> [f |-> vs[i].f, res |-> vs[i].res, cls |-> vs[i].cls, alog |-> vs[i].alog,
-                                     disk |-> vs[i].d1]],
+                                     disk |-> vs[i].d1, tr |-> vs[i].tr, imps |-> vs[i].imps]],
    exit |-> ex, disk |-> d]
 Finished == st = "done" /\ (round = Repeat \/ exit = 134)
 Case ==
